@@ -9,6 +9,7 @@ PROPS = {
             {'template': 'units/c04_int.rs.in', 'modes': [[]], 'canary': True},
             {'template': 'units/c04_int_err.rs.in', 'modes': [[]], 'canary': True},
             {'template': 'units/c07_binop_plan.rs.in', 'modes': [[]], 'canary': True},
+            {'template': 'units/c07_compound_tables.rs.in', 'modes': [[]], 'canary': True},
         ],
         'kani': [{'name': 'c04', 'jobs': 8, 'timeout': 1500}],
         # lowering of binary / compound-assignment statements and emit_binop_expr (quote! interpolation, &mut self
@@ -77,6 +78,7 @@ PROPS = {
             {'template': 'units/c07_exponent.rs.in', 'modes': [[]], 'canary': True},
             {'template': 'units/c07_binop_plan.rs.in', 'modes': [[]], 'canary': True},
             {'template': 'units/c07_checker.rs.in', 'modes': [[]], 'canary': True},
+            {'template': 'units/c07_compound_tables.rs.in', 'modes': [[]], 'canary': True},
         ],
         'kani': [],
         'not_covered': [
